@@ -10,7 +10,7 @@ from ..ai.invariants import INVARIANTS
 from ..ai.models import M
 from ..ai.values import Enum, Ref, Seq
 from ..epath import CFG
-from ..oflow import OFlow, decode_fmt_template, flatten
+from ..oflow import FAILURE_ARG, ROUTERS, OFlow, decode_fmt_template, flatten
 from .c09 import find_parser
 from .common import fixture_facts, get_facts
 
@@ -172,6 +172,8 @@ def resolution_rules(f, root, is_sink, sparam=2, literal="localtime", literal_pa
             return True
         if t[0] == "const" and t[1] in (literal_path, sep):
             return True
+        if t == ("int", ord(sep)):
+            return True
         if t[0] == "bytes":
             pieces = decode_fmt_template(t[1])
             return pieces is not None and all(p[0] == "arg" or p[1] == sep for p in pieces)
@@ -194,84 +196,171 @@ def resolution_rules(f, root, is_sink, sparam=2, literal="localtime", literal_pa
             rest = [t for t in a0 if t != P and t not in trims]
             if rest or not a0:
                 out.append(("PSTR-ARG", "pstr-arg|%s" % ";".join(map(tok_str, sorted(rest))), "the string decoder is given something other than the (trimmed) TZ value: %s" % ", ".join(map(tok_str, sorted(rest))), e[2]))
-            for t in trims:
-                for u in uses:
-                    if u[1] == t[1] and u[3] and not (u[3][0] <= {P}):
-                        out.append(("PSTR-ARG", "trim-of|%s" % t[1], "%s is applied to something other than the TZ value" % t[1], u[2]))
+            # every trim in the chain is applied to the value or to another trim of it
+            trim_defs = {t[1] for t in trims}
+            for u in uses:
+                if u[1].startswith("core::str::") and "::trim" in u[1] and u[3]:
+                    bad_src = [t for t in u[3][0] if t != P and not (t[0] == "call" and t[1].startswith("core::str::") and "::trim" in t[1])]
+                    if bad_src and u[1] in trim_defs:
+                        out.append(("PSTR-ARG", "trim-of|%s" % u[1], "%s is applied to something other than the TZ value" % u[1], u[2]))
             a1 = e[3][1] if len(e[3]) > 1 else frozenset()
             if a1 != {("int", 0)}:
                 out.append(("EXT-OFF", "ext-mode|%s" % ";".join(map(tok_str, sorted(a1))), "the string decoder's extension mode is not the constant false (origins: %s)" % ", ".join(map(tok_str, sorted(a1))), e[2]))
-    # ------------------------------------------------------------------ path rules on the entry point
+    # ------------------------------------------------------------------ path rules, per function reached
+    # A *site* is a call in some function reached from the entry point that (transitively) contains effects; its
+    # kinds are the effect kinds inside it. Ordering rules are checked in every function over its own sites, which
+    # makes them independent of how the resolution is split into helpers and closures.
+    def kinds_of(evs):
+        ks = set()
+        for x in flatten(evs):
+            if x[0] == "PTRCALL":
+                ks.add("READ")
+            elif x[0] == "SINK":
+                ks.add(x[1])
+        return ks
+
+    def sites_of(inst):
+        out_ = []
+        for e in o.summary(inst).events:
+            ks = kinds_of([e])
+            if ks:
+                out_.append({"bi": e[4], "kinds": ks, "event": e, "span": e[2], "paths": [x[3][0] for x in flatten([e]) if x[0] == "PTRCALL" and x[3]]})
+        return out_
+
+    all_sites = {}
+    for iid in sorted(o.visited):
+        inst = f.instances[iid]
+        if is_sink(inst) is None:
+            ss = sites_of(inst)
+            if ss:
+                all_sites[iid] = ss
+    root_sites = all_sites.get(root["id"], [])
+    stats.update({"functions with effect sites": len(all_sites), "sites in the entry point": len(root_sites), "PFILE leaves": len([x for x in sinks if x[1] == "PFILE"]), "PSTR leaves": len([x for x in sinks if x[1] == "PSTR"])})
+
+    def exclusive_parts(site):
+        """For a routing combinator the closures are alternatives (at most one runs): [(arg index, kinds)]"""
+        e = site["event"]
+        d = e[6] if e[0] == "LOCAL" and len(e) > 6 else (e[1] if e[0] == "USE" else None)
+        pc = e[7] if e[0] == "LOCAL" and len(e) > 7 else (e[6] if e[0] == "USE" and len(e) > 6 else None)
+        if d in ROUTERS and pc:
+            return d, [(ai, kinds_of(evs)) for ai, _, evs in pc]
+        return d, None
+
+    guarded_fns = {}  # instance id -> True if every PSTR inside is reached only after a failed whole-value lookup
+
+    for iid, ss in all_sites.items():
+        inst = f.instances[iid]
+        cfg = CFG(inst)
+
+        def after(bi):
+            return cfg.reachable_from(cfg.succ.get(bi, []))
+
+        by_block = {s_["bi"]: s_ for s_ in ss}
+        for s_ in ss:
+            later = [by_block[b] for b in sorted(after(s_["bi"])) if b in by_block and b != s_["bi"] or (b == s_["bi"] and False)]
+            d, parts = exclusive_parts(s_)
+            # ONE-RESOLUTION
+            if "READ" in s_["kinds"]:
+                for t_ in later:
+                    if "READ" in t_["kinds"]:
+                        out.append(("ONE-RESOLUTION", "second-lookup|%s" % inst["name"].rsplit("::", 1)[-1], "a second file lookup (%s) can follow the lookup at %s — a failed lookup must not fall back to another one" % (t_["span"], s_["span"]), s_["span"]))
+                        break
+            # NO-FALLBACK-AFTER-FILE
+            if "PFILE" in s_["kinds"]:
+                for t_ in later:
+                    if t_["kinds"] & {"PSTR", "READ"}:
+                        out.append(("NO-FALLBACK-AFTER-FILE", "after-decode|%s" % inst["name"].rsplit("::", 1)[-1], "after the TZif decoder ran on a file that was read (%s), the string decoder or another lookup can still be reached (%s)" % (s_["span"], t_["span"]), s_["span"]))
+                        break
+            # a higher-order call that is not a routing combinator may run its closures repeatedly and in any order
+            if parts is None and s_["event"][0] in ("LOCAL", "USE") and (s_["event"][1] is None or s_["event"][0] == "USE"):
+                if "PFILE" in s_["kinds"] and (s_["kinds"] & {"PSTR", "READ"}):
+                    out.append(("NO-FALLBACK-AFTER-FILE", "unordered|%s" % (d or "?"), "the TZif decoder and a lookup / the string decoder run inside closures of %s, whose order of invocation is not known" % d, s_["span"]))
+
+    # STR-ONLY-AFTER-FAILED-READ: walk up from every PSTR leaf
+    def whole_value_arg(inst, term):
+        body_ = inst["body"]
+        for a_ in term["args"]:
+            pl = a_.get("m") or a_.get("c")
+            if pl is not None and not pl["p"] and reborrow_of(body_, pl["l"], sparam):
+                return True
+        return False
+
+    def pstr_guard(iid, depth=0):
+        """None if every PSTR inside function iid is properly guarded *within* it; else list of unguarded sites
+        (bi, span, why) that need a guard further up."""
+        inst = f.instances[iid]
+        cfg = CFG(inst)
+        ss = all_sites.get(iid, [])
+        need = []
+        for s_ in ss:
+            if "PSTR" not in s_["kinds"]:
+                continue
+            ok_here = False
+            why = "not behind a failed lookup"
+            # (a) dominated by the failure edge of a lookup site in this function
+            for r_ in ss:
+                if "READ" in r_["kinds"] and r_ is not s_:
+                    for ft in cfg.failure_targets(r_["bi"]):
+                        if cfg.dominated_by(s_["bi"], ft):
+                            if iid == root["id"] and not whole_value_arg(inst, cfg.blocks[r_["bi"]]["term"]):
+                                why = "the lookup whose failure leads here was not given the whole TZ value"
+                            else:
+                                ok_here = True
+            # (b) failure-position closure of a routing combinator applied to a lookup result
+            d, parts = exclusive_parts(s_)
+            if not ok_here and parts is not None:
+                e = s_["event"]
+                argo = e[5] if e[0] == "LOCAL" else e[3]
+                fa = FAILURE_ARG.get(d)
+                recv_is_lookup = bool(argo) and any(t[0] == "read" for t in argo[0])
+                if fa is not None and recv_is_lookup and all(("PSTR" not in ks) or ai == fa for ai, ks in parts):
+                    # the lookup that produced the receiver: a READ site of this function reaching this block
+                    prods = [r_ for r_ in ss if "READ" in r_["kinds"] and r_ is not s_ and s_["bi"] in cfg.reachable_from(cfg.succ.get(r_["bi"], []))]
+                    if iid != root["id"] or any(whole_value_arg(inst, cfg.blocks[r_["bi"]]["term"]) for r_ in prods):
+                        ok_here = True
+                    else:
+                        why = "the lookup whose failure leads here was not given the whole TZ value"
+            # (c) the PSTR is inside a local callee / closure of this site: ask that function
+            if not ok_here:
+                e = s_["event"]
+                inner = []
+                if e[0] == "LOCAL" and e[1] is not None:
+                    inner = [e[1]]
+                else:
+                    pc = e[7] if e[0] == "LOCAL" and len(e) > 7 else (e[6] if e[0] == "USE" and len(e) > 6 else [])
+                    inner = [cid for _, cid, evs in (pc or []) if "PSTR" in kinds_of(evs)]
+                if inner and depth < 6 and all(is_sink(f.instances[c]) is None and pstr_guard(c, depth + 1) is None for c in inner):
+                    ok_here = True
+            if not ok_here:
+                need.append((s_["bi"], s_["span"], why))
+        return need or None
+
+    ng = pstr_guard(root["id"])
+    if ng:
+        for bi, span, why in ng:
+            out.append(("STR-ONLY-AFTER-FAILED-READ", "unguarded-pstr" if "whole" not in why else "fallback-not-whole-value", "the string decoder can be reached %s" % why if "whole" not in why else why, span))
+    # LITERAL: "/etc/localtime" is read exactly in the case value == "localtime"
     cfg = CFG(root)
-    top = s.events
-    resolve_sites = {}
-    for e in top:
-        if e[0] == "PTRCALL":
-            resolve_sites[e[4]] = e
-        elif e[0] == "LOCAL" and has_read(e[3]) and len(e) > 4:
-            resolve_sites[e[4]] = e
-        elif e[0] == "USE" and len(e) >= 6 and has_read(e[5]):
-            resolve_sites[e[4]] = e
-    pfile_sites = {e[4]: e for e in top if e[0] == "SINK" and e[1] == "PFILE"}
-    pstr_sites = {e[4]: e for e in top if e[0] == "SINK" and e[1] == "PSTR"}
-    nested_sinks = [e for e in sinks if e not in top]
-    stats.update({"RESOLVE sites": len(resolve_sites), "PFILE sites": len(pfile_sites), "PSTR sites": len(pstr_sites)})
-    if nested_sinks:
-        out.append(("ANCHOR", "nested-decoder", "a decoder is called from a helper of the entry point; the path rules need the decoder calls in the entry point itself", nested_sinks[0][2]))
-    body = root["body"]
-
-    def after(bi):
-        return cfg.reachable_from(cfg.succ.get(bi, []))
-
-    # ONE-RESOLUTION
-    for bi, e in resolve_sites.items():
-        later = sorted(b for b in after(bi) if b in resolve_sites)
-        if later:
-            out.append(("ONE-RESOLUTION", "second-lookup|%s" % e[2].rsplit(":", 2)[0], "a second file lookup (%s) can follow the lookup at %s — a failed lookup must not fall back to another one" % (resolve_sites[later[0]][2], e[2]), e[2]))
-    # NO-FALLBACK-AFTER-FILE
-    for bi, e in pfile_sites.items():
-        later = sorted(b for b in after(bi) if b in pstr_sites or b in resolve_sites)
-        if later:
-            out.append(("NO-FALLBACK-AFTER-FILE", "after-decode", "after the TZif decoder ran on a file that was read, the string decoder or another lookup can still be reached (bb%d)" % later[0], e[2]))
-    # STR-ONLY-AFTER-FAILED-READ
-    for bi, e in pstr_sites.items():
-        guards = []
-        for rb, re_ in resolve_sites.items():
-            for ft in cfg.failure_targets(rb):
-                if cfg.dominated_by(bi, ft):
-                    guards.append(rb)
-        if not guards:
-            out.append(("STR-ONLY-AFTER-FAILED-READ", "unguarded-pstr", "the string decoder can be reached without a failed file lookup before it", e[2]))
-        else:
-            whole = False
-            for rb in guards:
-                t = cfg.blocks[rb]["term"]
-                for a in t["args"]:
-                    pl = a.get("m") or a.get("c")
-                    if pl is not None and not pl["p"] and reborrow_of(body, pl["l"], sparam):
-                        whole = True
-            if not whole:
-                out.append(("STR-ONLY-AFTER-FAILED-READ", "fallback-not-whole-value", "the lookup whose failure leads to the string decoder was not given the whole TZ value", e[2]))
-    # LITERAL
-    lit_reads = [bi for bi, e in resolve_sites.items() if e[0] == "PTRCALL" and e[3] and ("const", literal_path) in e[3][0]]
+    lit_sites = [s_ for s_ in root_sites if any(("const", literal_path) in p_ for p_ in s_["paths"])]
     tests = []
-    for e in top:
+    for e in s.events:
         if e[0] == "USE" and e[1].endswith("::eq") and len(e[3]) == 2 and {frozenset(e[3][0]), frozenset(e[3][1])} == {frozenset({P}), frozenset({("const", literal)})}:
             tests.append(e[4])
-    if not lit_reads:
-        out.append(("LITERAL", "no-literal-read", "no READ of \"%s\" in the entry point" % literal_path, root.get("span")))
-    elif len(tests) != 1:
-        out.append(("LITERAL", "no-literal-test", "the comparison of the TZ value with \"%s\" was not found (%d candidates)" % (literal, len(tests)), root.get("span")))
+    nested_lit = [x for x in reads if x[3] and ("const", literal_path) in x[3][0]]
+    if not nested_lit:
+        out.append(("LITERAL", "no-literal-read", "no READ of \"%s\" is reachable from the entry point" % literal_path, root.get("span")))
+    elif len(tests) != 1 or not lit_sites:
+        out.append(("LITERAL", "no-literal-test", "the comparison of the TZ value with \"%s\" guarding the read of \"%s\" was not found in the entry point (%d candidates)" % (literal, literal_path, len(tests)), root.get("span")))
     else:
         tt = nonzero_target(cfg, tests[0])
-        for bi in lit_reads:
-            if not (tt and all(cfg.dominated_by(bi, x) for x in tt)):
-                out.append(("LITERAL", "literal-read-unguarded", "the READ of \"%s\" is not confined to the case value == \"%s\"" % (literal_path, literal), resolve_sites[bi][2]))
-            elif resolve_sites[bi][3][0] != {("const", literal_path)}:
-                out.append(("LITERAL", "literal-path-mixed", "the literal case reads something besides \"%s\"" % literal_path, resolve_sites[bi][2]))
-        for bi, e in resolve_sites.items():
-            if bi not in lit_reads and tt and all(cfg.dominated_by(bi, x) for x in tt):
-                out.append(("LITERAL", "literal-other-lookup", "in the case value == \"%s\" a lookup other than \"%s\" is made" % (literal, literal_path), e[2]))
+        for s_ in lit_sites:
+            if not (tt and all(cfg.dominated_by(s_["bi"], x) for x in tt)):
+                out.append(("LITERAL", "literal-read-unguarded", "the READ of \"%s\" is not confined to the case value == \"%s\"" % (literal_path, literal), s_["span"]))
+            elif any(p_ != {("const", literal_path)} for p_ in s_["paths"]):
+                out.append(("LITERAL", "literal-path-mixed", "the literal case reads something besides \"%s\"" % literal_path, s_["span"]))
+        for s_ in root_sites:
+            if "READ" in s_["kinds"] and s_ not in lit_sites and tt and all(cfg.dominated_by(s_["bi"], x) for x in tt):
+                out.append(("LITERAL", "literal-other-lookup", "in the case value == \"%s\" a lookup other than \"%s\" is made" % (literal, literal_path), s_["span"]))
     # JOIN-ORDER (only when the format! idiom is present)
     join = "not applicable (name not built by format!)"
     for iid in sorted(x for x in o.visited):
@@ -440,8 +529,9 @@ def check(run, tier):
         for rule, key, msg, span in rs:
             run.finding(rule, "%s|%s" % (cfg, key), msg, span)
         stats["function-pointer call sites in the crate"] = n_sites
-        run.floor("%s: READ sites" % cfg, stats["READ sites (with context)"], 3)
-        run.floor("%s: decoder call sites" % cfg, stats["decoder call sites"], 4)
+        run.floor("%s: READ sites" % cfg, stats["READ sites (with context)"], 2)
+        run.floor("%s: TZif decoder reached" % cfg, stats["PFILE leaves"], 1)
+        run.floor("%s: string decoder reached" % cfg, stats["PSTR leaves"], 1)
         locs = [i for i in f.instances if i["name"] == LOCAL]
         if locs:
             lf = local_rule(f, o, locs[0], root)
